@@ -142,7 +142,10 @@ Inductive akind :=
 | KAddrArg     (* &x.f passed directly as a call argument / pointer-receiver method call
                   on a struct-valued field of a foreign type: treated as a write performed
                   during the call (the callee is assumed not to retain the pointer) *)
-| KUnknown.    (* anything else (address stored or returned, method value, ...) *)
+| KUnknown     (* anything else (address stored or returned, method value, ...) *)
+| KWriteThrough. (* x.f.g = .. / *x.f = .. with f a pointer- or interface-typed field whose pointee
+                  is not a listed type, also through a local copy p := x.f: the object BEHIND
+                  the field is modified (a write as far as locking goes) *)
 Inductive lmode := MW | MR.
 
 Record access_fact := mkAcc {
@@ -163,6 +166,11 @@ Inductive prot :=
 | SelfSynchronised           (* trusted: sync.* value / value of a type with its own discipline *)
 | LockTransferred (l : string) (* trusted: guarded by l, but l is acquired in one function and
                                 released through a pointer elsewhere, which vskel cannot follow *)
+| CallerOwned                (* a pointer / interface / func supplied by the caller (Transport.TLS,
+                                Dialer.TLS, Transport.SASL, Resolver, Balancer, Logger, ...): the
+                                library only reads the field and never writes through it (checked:
+                                only KRead accesses; a KWriteThrough, e.g. tlsConfig.ServerName = ..
+                                without a Clone, fails) *)
 | ImmutableAfterPublish.     (* an atomic.Value / atomic.Pointer: accessed only through its atomic
                                 methods, and the object handed to Store/Swap is never written
                                 through the storing function's local afterwards (vskel records such
@@ -186,17 +194,17 @@ Definition access_ok (pr : prot) (f : access_fact) : bool :=
   match pr with
   | GuardedBy l =>
       match a_kind f with
-      | KRead | KWrite | KAddrArg => has_lock l MW (a_locks f)
+      | KRead | KWrite | KAddrArg | KWriteThrough => has_lock l MW (a_locks f)
       | KAtomic | KUnknown => false
       end
   | RGuardedBy l =>
       match a_kind f with
       | KRead => has_lock l MW (a_locks f) || has_lock l MR (a_locks f)
-      | KWrite | KAddrArg => has_lock l MW (a_locks f)
+      | KWrite | KAddrArg | KWriteThrough => has_lock l MW (a_locks f)
       | KAtomic | KUnknown => false
       end
   | AtomicOnly | ImmutableAfterPublish => match a_kind f with KAtomic => true | _ => false end
-  | WriteOnceBeforePublish => match a_kind f with KRead => true | _ => false end
+  | WriteOnceBeforePublish | CallerOwned => match a_kind f with KRead => true | _ => false end
   | HandedOff _ | Confined | SelfSynchronised | LockTransferred _ => true
   end.
 
@@ -217,7 +225,7 @@ Definition offenders (facts : list access_fact) (pol : policy) : list access_fac
 Definition kind_matches (k : akind) (a : event) : bool :=
   match a with
   | Rd _ => match k with KAtomic => false | _ => true end
-  | Wr _ => match k with KWrite | KAddrArg | KUnknown => true | _ => false end
+  | Wr _ => match k with KWrite | KAddrArg | KUnknown | KWriteThrough => true | _ => false end
   | Atomic _ => match k with KAtomic | KUnknown => true | _ => false end
   | _ => true
   end.
